@@ -254,7 +254,9 @@ impl Dist {
     /// Sample the distribution. May panic if not valid (see [`Self::validate()`]).
     pub fn sample<R: RngCore>(self, rng: &mut R) -> f64 {
         let mut r: f64 = 0.0;
-        r = r.max(self.dist_sample(rng) + self.start);
+        // clamp to [0.0, f64::MAX]: an overflowing sample or start must not
+        // turn into infinity
+        r = r.max(self.dist_sample(rng) + self.start).min(f64::MAX);
         if self.max > 0.0 {
             return r.min(self.max);
         }
